@@ -7,3 +7,4 @@ pub mod reach;
 pub mod sections;
 pub mod ident;
 pub mod dwarfread;
+pub mod encodings;
